@@ -41,6 +41,7 @@ def run_shard(args):
     faulthandler.enable()
     faulthandler.dump_traceback_later(max(5, tmo - 3), exit=False)
     check_tree()
+    ctx.autodump(args.out)
     try:
         mod.run(ctx)
     except Exception:
@@ -109,6 +110,11 @@ def main():
             if os.path.exists(pr["out"]):
                 with open(pr["out"]) as f:
                     results[pr["i"]] = json.load(f)
+                if results[pr["i"]].get("partial"):
+                    with open(pr["err"].name, "rb") as f:
+                        tail = f.read()[-2500:].decode("utf-8", "replace")
+                    crashed.append("shard %d ended (%s) before finishing; partial results kept: %s"
+                                   % (pr["i"], rc, tail))
             else:
                 with open(pr["err"].name, "rb") as f:
                     tail = f.read()[-3000:].decode("utf-8", "replace")
